@@ -431,6 +431,10 @@ def _await_descriptor_upload(tor_protocol, onion, progress, await_all_uploads):
                 log.err()
 
     def hostname_matches(hostname):
+        if isinstance(onion, EphemeralAuthenticatedOnionService):
+            # Tor told us the address; it can't always be computed
+            # from the key (we may have asked Tor to discard it)
+            return onion.hostname == hostname
         if IAuthenticatedOnionClients.providedBy(onion):
             return hostname[:-6] == onion.get_permanent_id()
         else:
